@@ -491,6 +491,319 @@ theorem utf8Valid_renderStr (s : Bytes) (hs : utf8Valid s = true) :
   exact this
 
 
+/-! ## Non-integer numbers -/
+
+/-- The number scanner reads back rendered non-integer numbers (`decOK` below). -/
+def DecOK : Prop := ∀ (m e : Int) (tl : Bytes), (JVal.dec m e).wf = true → numEnd tl →
+  parseNumber (renderDec m e ++ tl) = some (.dec m e, tl)
+
+
+theorem IsDigitsOf.last_ne {n : Nat} {ds : Bytes} (hs : IsDigitsOf n ds) (hn : n % 10 ≠ 0) :
+    ∃ l r, ds.reverse = l :: r ∧ l ≠ 48 := by
+  cases h : ds.reverse with
+  | nil => exact absurd (List.reverse_eq_nil_iff.mp h) hs.ne
+  | cons l r =>
+    refine ⟨l, r, rfl, ?_⟩
+    have hds : ds = r.reverse ++ [l] := by
+      have := congrArg List.reverse h
+      simpa using this
+    intro hl
+    have hv := hs.value
+    rw [hds, digitsToNat_append_single, hl] at hv
+    have : (48 : UInt8).toNat = 48 := rfl
+    omega
+
+theorem takeWhile_zeros (k : Nat) (l : UInt8) (rest : Bytes) (hl : l ≠ 48) :
+    (List.replicate k (48 : UInt8) ++ l :: rest).takeWhile (· = 48) = List.replicate k 48 := by
+  induction k with
+  | zero => simp [hl]
+  | succ k ih => simp [List.replicate_succ, ih]
+
+theorem drop_replicate_append (k : Nat) (a : UInt8) (rest : Bytes) :
+    (List.replicate k a ++ rest).drop k = rest := by
+  induction k with
+  | zero => simp
+  | succ k ih => simp [List.replicate_succ, ih]
+
+theorem digitsToNat_zeros_append (j : Nat) (ds : Bytes) :
+    digitsToNat (List.replicate j 48 ++ ds) = digitsToNat ds := by
+  induction j with
+  | zero => simp
+  | succ j ih =>
+    simp only [digitsToNat] at ih ⊢
+    simp only [List.replicate_succ, List.cons_append, List.foldl_cons]
+    exact ih
+
+theorem mkDec_core (neg : Bool) (n : Nat) (ds : Bytes) (j k : Nat) (x : Int)
+    (hs : IsDigitsOf n ds) (hn : n % 10 ≠ 0) :
+    mkDec neg (List.replicate j 48 ++ ds ++ List.replicate k 48) x
+      = .dec (if neg then -(n : Int) else (n : Int)) (x + (k : Int)) := by
+  obtain ⟨l, r, hrev, hl⟩ := hs.last_ne hn
+  have hds : ds = r.reverse ++ [l] := by
+    have := congrArg List.reverse hrev
+    simpa using this
+  have hr : (List.replicate j 48 ++ ds ++ List.replicate k 48).reverse
+      = List.replicate k 48 ++ l :: (r ++ List.replicate j 48) := by
+    simp [List.reverse_append, hrev]
+  have hn0 : n ≠ 0 := by omega
+  unfold mkDec
+  simp only [hr, takeWhile_zeros k l _ hl, List.length_replicate, drop_replicate_append]
+  have hback : (l :: (r ++ List.replicate j 48)).reverse = List.replicate j 48 ++ ds := by
+    simp [List.reverse_append, hds]
+  rw [hback, digitsToNat_zeros_append, hs.value]
+  simp only [hn0, if_false]
+
+theorem zeros_digits (k : Nat) : ∀ d ∈ List.replicate k (48 : UInt8), isDigit d = true := by
+  intro d hd
+  rw [List.eq_of_mem_replicate hd]
+  decide
+
+theorem parseFrac_dot (fs tl : Bytes) (hfs : ∀ d ∈ fs, isDigit d = true) (hne : fs ≠ [])
+    (htl : ∀ c ∈ tl.head?, isDigit c = false) : parseFrac (46 :: (fs ++ tl)) = some (fs, tl) := by
+  simp [parseFrac, spanDigits_append fs tl hfs htl, hne]
+
+theorem renderExp_cons (x : Int) : ∃ r, renderExp x = 101 :: r := by
+  unfold renderExp; split <;> exact ⟨_, rfl⟩
+
+theorem parseExp_renderExp (x : Int) (tl : Bytes) (htl : ∀ c ∈ tl.head?, isDigit c = false) :
+    parseExp (renderExp x ++ tl) = some (some x, tl) := by
+  have hs := renderNat_spec x.natAbs
+  have hsp := spanDigits_append _ tl hs.allDigit htl
+  unfold renderExp
+  split
+  · have hx : -(x.natAbs : Int) = x := by omega
+    simp [parseExp, hsp, hs.ne, hs.value, hx]
+  · have hx : (x.natAbs : Int) = x := by omega
+    simp [parseExp, hsp, hs.ne, hs.value, hx]
+
+theorem parseFrac_e (r : Bytes) : parseFrac (101 :: r) = some ([], 101 :: r) := by
+  simp [parseFrac]
+
+/-- The number scanner on `sign ip R`, where `ip` is a canonical integer part. -/
+theorem parseNumber_general (neg : Bool) (ip R fs s2 s3 : Bytes) (ex : Option Int)
+    (hip : ∀ d ∈ ip, isDigit d = true) (hne : ip ≠ [])
+    (hz : ¬ (ip.head? = some 48 ∧ ip.length ≠ 1))
+    (hR : ∀ c ∈ R.head?, isDigit c = false)
+    (hfrac : parseFrac R = some (fs, s2)) (hexp : parseExp s2 = some (ex, s3))
+    (hnot : ¬ (fs = [] ∧ ex = none)) :
+    parseNumber ((if neg then [45] else []) ++ (ip ++ R))
+      = some (mkDec neg (ip ++ fs) (ex.getD 0 - (fs.length : Int)), s3) := by
+  have hsp := spanDigits_append ip R hip hR
+  cases neg with
+  | true =>
+    simp only [if_true, List.cons_append, List.nil_append, parseNumber, hsp]
+    rw [if_neg (by intro h; cases h with | inl h => exact hne h | inr h => exact hz h)]
+    simp only [hfrac, hexp, hnot, if_false, decide_true]
+  | false =>
+    cases ip with
+    | nil => exact absurd rfl hne
+    | cons c r =>
+      have hc : c ≠ 45 := isDigit_ne_minus (hip c (by simp))
+      simp only [List.cons_append] at hsp
+      simp only [Bool.false_eq_true, if_false, List.nil_append, List.cons_append, parseNumber, hc,
+        hsp]
+      rw [if_neg (by intro h; cases h with | inl h => cases h | inr h => exact hz h)]
+      simp only [hfrac, hexp, hnot, if_false, decide_false]
+
+theorem head?_append_of_ne {ds : Bytes} (tl : Bytes) (h : ds ≠ []) :
+    (ds ++ tl).head? = ds.head? := by
+  cases ds with
+  | nil => exact absurd rfl h
+  | cons a as => rfl
+
+theorem decOK : DecOK := by
+  intro m e tl hwf htl
+  have htl' := numEnd_head htl
+  have hexpN := parseExp_numEnd htl
+  simp only [JVal.wf] at hwf
+  unfold renderDec
+  split
+  · -- zero
+    rename_i hm0
+    subst hm0
+    simp only [if_true, Bool.or_eq_true, decide_eq_true_eq] at hwf
+    have hfr : parseFrac (46 :: ([48] ++ tl)) = some ([48], tl) :=
+      parseFrac_dot [48] tl (by decide) (by simp) htl'
+    split
+    · have he : e = -1 := by omega
+      subst he
+      have := parseNumber_general true [48] (46 :: ([48] ++ tl)) [48] tl tl none (by decide)
+        (by simp) (by simp) (by simp; decide) hfr hexpN (by simp)
+      simp only [if_true, List.cons_append, List.nil_append] at this ⊢
+      rw [this]
+      simp [mkDec, digitsToNat]
+    · have he : e = 0 := by omega
+      subst he
+      have := parseNumber_general false [48] (46 :: ([48] ++ tl)) [48] tl tl none (by decide)
+        (by simp) (by simp) (by simp; decide) hfr hexpN (by simp)
+      simp only [Bool.false_eq_true, if_false, List.cons_append, List.nil_append] at this ⊢
+      rw [this]
+      simp [mkDec, digitsToNat]
+  · rename_i hm0
+    simp only [hm0, if_false, ne_eq, decide_not, Bool.not_eq_true',
+      decide_eq_false_iff_not] at hwf
+    have hs := renderNat_spec m.natAbs
+    have hn10 : m.natAbs % 10 ≠ 0 := by omega
+    have hn0 : m.natAbs ≠ 0 := by omega
+    have hh48 : (renderNat m.natAbs).head? ≠ some 48 := fun h => hn0 (hs.head0 h)
+    have hsign : (if m < 0 then [45] else ([] : Bytes)) = if decide (m < 0) = true then [45] else [] := by
+      simp
+    have hres : (if decide (m < 0) = true then -(m.natAbs : Int) else (m.natAbs : Int)) = m := by
+      by_cases h : m < 0
+      · simp only [h, decide_true, if_true]; omega
+      · simp only [h, decide_false, Bool.false_eq_true, if_false]; omega
+    simp only []
+    rw [hsign]
+    generalize hds : renderNat m.natAbs = ds at hs hh48
+    by_cases hc : 0 ≤ e ∧ (ds.length : Int) + e ≤ 16
+    · -- layout 1: integer digits, zeros, ".0"
+      rw [if_pos hc]
+      have hfr : parseFrac (46 :: ([48] ++ tl)) = some ([48], tl) :=
+        parseFrac_dot [48] tl (by decide) (by simp) htl'
+      have hipd : ∀ d ∈ ds ++ List.replicate e.toNat 48, isDigit d = true := by
+        intro d hd
+        rcases List.mem_append.mp hd with h | h
+        · exact hs.allDigit d h
+        · exact zeros_digits _ d h
+      have := parseNumber_general (decide (m < 0)) (ds ++ List.replicate e.toNat 48)
+        (46 :: ([48] ++ tl)) [48] tl tl none hipd (by simp [hs.ne])
+        (by rw [head?_append_of_ne _ hs.ne]; exact fun h => hh48 h.1) (by simp; decide) hfr hexpN
+        (by simp)
+      simp only [List.append_assoc, List.cons_append, List.nil_append] at this ⊢
+      rw [this]
+      have hcore := mkDec_core (decide (m < 0)) m.natAbs ds 0 (e.toNat + 1)
+        (Option.getD none 0 - ([48] : Bytes).length) hs hn10
+      simp only [List.replicate_zero, List.nil_append] at hcore
+      rw [List.replicate_succ'] at hcore
+      rw [hcore, hres]
+      have : (Option.getD (none : Option Int) 0 - (([48] : Bytes).length : Int))
+          + ((e.toNat + 1 : Nat) : Int) = e := by
+        simp only [Option.getD_none, List.length_cons, List.length_nil]
+        omega
+      rw [this]
+    · rw [if_neg hc]
+      by_cases hc2 : 0 < (ds.length : Int) + e ∧ (ds.length : Int) + e ≤ 16
+      · -- layout 2: point inside the digits
+        rw [if_pos hc2]
+        have hk : ((ds.length : Int) + e).toNat < ds.length := by omega
+        have hk0 : 0 < ((ds.length : Int) + e).toNat := by omega
+        generalize hkk : ((ds.length : Int) + e).toNat = k at hk hk0
+        have htake_ne : ds.take k ≠ [] := by
+          intro h
+          have := congrArg List.length h
+          simp only [List.length_take, List.length_nil] at this
+          omega
+        have hdrop_ne : ds.drop k ≠ [] := by
+          intro h
+          have := congrArg List.length h
+          simp only [List.length_drop, List.length_nil] at this
+          omega
+        have hfr : parseFrac (46 :: (ds.drop k ++ tl)) = some (ds.drop k, tl) :=
+          parseFrac_dot _ tl (fun d hd => hs.allDigit d (List.mem_of_mem_drop hd)) hdrop_ne htl'
+        have hhead : (ds.take k).head? = ds.head? := by
+          cases ds with
+          | nil => exact absurd rfl hs.ne
+          | cons a as =>
+            cases k with
+            | zero => omega
+            | succ k => rfl
+        have := parseNumber_general (decide (m < 0)) (ds.take k) (46 :: (ds.drop k ++ tl))
+          (ds.drop k) tl tl none (fun d hd => hs.allDigit d (List.mem_of_mem_take hd)) htake_ne
+          (by rw [hhead]; exact fun h => hh48 h.1) (by simp; decide) hfr hexpN
+          (by simp [hdrop_ne])
+        simp only [List.append_assoc, List.cons_append] at this ⊢
+        rw [this, List.take_append_drop]
+        have hcore := mkDec_core (decide (m < 0)) m.natAbs ds 0 0
+          (Option.getD none 0 - ((ds.drop k).length : Int)) hs hn10
+        simp only [List.replicate_zero, List.nil_append, List.append_nil] at hcore
+        rw [hcore, hres]
+        have : (Option.getD (none : Option Int) 0 - ((ds.drop k).length : Int)) + ((0 : Nat) : Int)
+            = e := by
+          simp only [Option.getD_none, List.length_drop]
+          omega
+        rw [this]
+      · rw [if_neg hc2]
+        by_cases hc3 : -5 < (ds.length : Int) + e ∧ (ds.length : Int) + e ≤ 0
+        · -- layout 3: "0." zeros digits
+          rw [if_pos hc3]
+          generalize hj : (-((ds.length : Int) + e)).toNat = j
+          have hfsd : ∀ d ∈ List.replicate j 48 ++ ds, isDigit d = true := by
+            intro d hd
+            rcases List.mem_append.mp hd with h | h
+            · exact zeros_digits _ d h
+            · exact hs.allDigit d h
+          have hfr : parseFrac (46 :: ((List.replicate j 48 ++ ds) ++ tl))
+              = some (List.replicate j 48 ++ ds, tl) :=
+            parseFrac_dot _ tl hfsd (by simp [hs.ne]) htl'
+          have := parseNumber_general (decide (m < 0)) [48]
+            (46 :: ((List.replicate j 48 ++ ds) ++ tl)) (List.replicate j 48 ++ ds) tl tl none
+            (by decide) (by simp) (by simp) (by simp; decide) hfr hexpN (by simp [hs.ne])
+          simp only [List.append_assoc, List.cons_append, List.nil_append] at this ⊢
+          rw [this]
+          have hcore := mkDec_core (decide (m < 0)) m.natAbs ds (j + 1) 0
+            (Option.getD none 0 - ((List.replicate j (48 : UInt8) ++ ds).length : Int)) hs hn10
+          simp only [List.replicate_succ, List.cons_append, List.append_nil,
+            List.replicate_zero] at hcore
+          rw [hcore, hres]
+          have : (Option.getD (none : Option Int) 0
+              - ((List.replicate j (48 : UInt8) ++ ds).length : Int)) + ((0 : Nat) : Int) = e := by
+            simp only [Option.getD_none, List.length_append, List.length_replicate]
+            omega
+          rw [this]
+        · -- layout 4: scientific
+          rw [if_neg hc3]
+          obtain ⟨er, her⟩ := renderExp_cons ((ds.length : Int) + e - 1)
+          have hpe := parseExp_renderExp ((ds.length : Int) + e - 1) tl htl'
+          cases ds with
+          | nil => exact absurd rfl hs.ne
+          | cons d more =>
+            have hd1 : ¬ ((([d] : Bytes)).head? = some 48 ∧ ([d] : Bytes).length ≠ 1) := by simp
+            cases more with
+            | nil =>
+              simp only []
+              have hfr : parseFrac (renderExp (((([d] : Bytes).length : Nat) : Int) + e - 1) ++ tl)
+                  = some ([], renderExp (((([d] : Bytes).length : Nat) : Int) + e - 1) ++ tl) := by
+                rw [her]; exact parseFrac_e _
+              have := parseNumber_general (decide (m < 0)) [d] _ [] _ tl _
+                (fun x hx => hs.allDigit x hx) (by simp) hd1 (by rw [her]; simp; decide) hfr hpe
+                (by simp)
+              simp only [List.append_assoc, List.cons_append, List.nil_append] at this ⊢
+              rw [this]
+              have hcore := mkDec_core (decide (m < 0)) m.natAbs [d] 0 0
+                (Option.getD (some (((([d] : Bytes).length : Nat) : Int) + e - 1)) 0
+                  - ((([] : Bytes)).length : Int)) hs hn10
+              simp only [List.replicate_zero, List.nil_append, List.append_nil] at hcore
+              rw [hcore, hres]
+              have : (Option.getD (some (((([d] : Bytes).length : Nat) : Int) + e - 1)) 0
+                  - ((([] : Bytes)).length : Int)) + ((0 : Nat) : Int) = e := by
+                simp only [Option.getD_some, List.length_cons, List.length_nil]
+                omega
+              rw [this]
+            | cons d2 more' =>
+              simp only []
+              have hmd : ∀ x ∈ d2 :: more', isDigit x = true :=
+                fun x hx => hs.allDigit x (List.mem_cons_of_mem _ hx)
+              have hfr : parseFrac (46 :: ((d2 :: more') ++
+                  (renderExp ((((d :: d2 :: more' : Bytes).length : Nat) : Int) + e - 1) ++ tl)))
+                  = some (d2 :: more',
+                    renderExp ((((d :: d2 :: more' : Bytes).length : Nat) : Int) + e - 1) ++ tl) :=
+                parseFrac_dot _ _ hmd (by simp) (by rw [her]; simp; decide)
+              have := parseNumber_general (decide (m < 0)) [d] _ (d2 :: more') _ tl _
+                (fun x hx => hs.allDigit x (by simp at hx; simp [hx])) (by simp) hd1
+                (by simp; decide) hfr hpe (by simp)
+              simp only [List.append_assoc, List.cons_append, List.nil_append] at this ⊢
+              rw [this]
+              have hcore := mkDec_core (decide (m < 0)) m.natAbs (d :: d2 :: more') 0 0
+                (Option.getD (some ((((d :: d2 :: more' : Bytes).length : Nat) : Int) + e - 1)) 0
+                  - (((d2 :: more' : Bytes)).length : Int)) hs hn10
+              simp only [List.replicate_zero, List.nil_append, List.append_nil] at hcore
+              rw [hcore, hres]
+              have : (Option.getD (some ((((d :: d2 :: more' : Bytes).length : Nat) : Int) + e - 1)) 0
+                  - (((d2 :: more' : Bytes)).length : Int)) + ((0 : Nat) : Int) = e := by
+                simp only [Option.getD_some, List.length_cons]
+                omega
+              rw [this]
+
 /-! ## Item 3: values -/
 
 /-- First byte of a rendered value. -/
@@ -754,9 +1067,6 @@ theorem numEnd_members (kvs : List (Bytes × JVal)) (tl : Bytes) :
     rw [renderMembers]; exact ⟨by decide, by decide, by decide, by decide⟩
 
 
-/-- The number scanner reads back rendered non-integer numbers (proved below). -/
-def DecOK : Prop := ∀ (m e : Int) (tl : Bytes), (JVal.dec m e).wf = true → numEnd tl →
-  parseNumber (renderDec m e ++ tl) = some (.dec m e, tl)
 
 theorem numEnd_125 (tl : Bytes) : numEnd (125 :: tl) :=
   ⟨by decide, by decide, by decide, by decide⟩
@@ -935,6 +1245,130 @@ theorem parse_render_of (hdec : DecOK) (v : JVal) (hwf : v.wf = true)
     trivial
   rw [List.append_nil] at h
   simp [parse, h, skipWs]
+
+
+/-- The generalised round trip, with `DecOK` discharged. -/
+theorem parseValue_render_tl (v : JVal) (d fuel : Nat) (tl : Bytes) (hwf : v.wf = true)
+    (hd : v.depth ≤ d) (hf : (render v).length ≤ fuel) (htl : numEnd tl) :
+    parseValue d fuel (render v ++ tl) = some (v, tl) :=
+  parseValue_render decOK v d fuel tl hwf hd hf htl
+
+/-- Item 3, the main theorem: every well-formed value of nesting depth at most 127 (the bound of
+    the real parser) is read back from its compact rendering.  All of `JVal` is covered, `dec`
+    included. -/
+theorem parse_render (v : JVal) (hwf : v.wf = true) (hd : v.depth ≤ maxNesting) :
+    parse (render v) = some v :=
+  parse_render_of decOK v hwf hd
+
+theorem render_injective_on_wf {a b : JVal} (ha : a.wf = true) (hb : b.wf = true)
+    (hda : a.depth ≤ maxNesting) (hdb : b.depth ≤ maxNesting) (h : render a = render b) :
+    a = b := by
+  have h1 := parse_render a ha hda
+  rw [h, parse_render b hb hdb] at h1
+  exact (Option.some.inj h1).symm
+
+/-! ## Item 4: no control bytes in rendered JSON -/
+
+abbrev All32 (l : Bytes) : Prop := ∀ c ∈ l, (32 : UInt8) ≤ c
+
+theorem All32.append {a b : Bytes} (ha : All32 a) (hb : All32 b) : All32 (a ++ b) := by
+  intro c hc
+  rcases List.mem_append.mp hc with h | h
+  · exact ha c h
+  · exact hb c h
+
+theorem All32.cons {c : UInt8} {l : Bytes} (hc : 32 ≤ c) (hl : All32 l) : All32 (c :: l) := by
+  intro x hx
+  rcases List.mem_cons.mp hx with h | h
+  · rw [h]; exact hc
+  · exact hl x h
+
+theorem digit_ge32 {c : UInt8} (h : isDigit c = true) : 32 ≤ c :=
+  byte_forall (P := fun c => isDigit c = true → 32 ≤ c) (by decide +kernel) c h
+
+theorem digits_all32 {ds : Bytes} (h : ∀ d ∈ ds, isDigit d = true) : All32 ds :=
+  fun c hc => digit_ge32 (h c hc)
+
+theorem renderNat_all32 (n : Nat) : All32 (renderNat n) :=
+  digits_all32 (renderNat_spec n).allDigit
+
+theorem renderInt_all32 (i : Int) : All32 (renderInt i) := by
+  unfold renderInt
+  split
+  · exact .cons (by decide) (renderNat_all32 _)
+  · exact renderNat_all32 _
+
+theorem renderExp_all32 (x : Int) : All32 (renderExp x) := by
+  unfold renderExp
+  split
+  · exact .cons (by decide) (.cons (by decide) (renderNat_all32 _))
+  · exact .cons (by decide) (.cons (by decide) (renderNat_all32 _))
+
+theorem renderDec_all32 (m e : Int) : All32 (renderDec m e) := by
+  have hds := renderNat_all32 m.natAbs
+  have hz : ∀ k, All32 (List.replicate k 48) := fun k => digits_all32 (zeros_digits k)
+  unfold renderDec
+  split
+  · split <;> decide
+  · simp only []
+    apply All32.append
+    · split <;> decide
+    · split
+      · exact .append (.append hds (hz _)) (by decide)
+      · split
+        · exact .append (fun c hc => hds c (List.mem_of_mem_take hc))
+            (.cons (by decide) (fun c hc => hds c (List.mem_of_mem_drop hc)))
+        · split
+          · exact .cons (by decide) (.cons (by decide) (.append (hz _) hds))
+          · generalize renderNat m.natAbs = ds at hds
+            cases ds with
+            | nil => intro c hc; simp at hc
+            | cons d more =>
+              have hd : 32 ≤ d := hds d (by simp)
+              have hmore : All32 more := fun c hc => hds c (by simp [hc])
+              cases more with
+              | nil => exact .cons hd (renderExp_all32 _)
+              | cons d2 more' =>
+                exact .cons hd (.cons (by decide) (.append hmore (renderExp_all32 _)))
+
+theorem renderStr_all32 (s : Bytes) : All32 (renderStr s) := renderStr_no_raw_control s
+
+mutual
+  theorem render_all32 : ∀ v : JVal, All32 (render v)
+    | .null => by rw [render]; decide
+    | .bool true => by rw [render]; decide
+    | .bool false => by rw [render]; decide
+    | .int i => by rw [render]; exact renderInt_all32 i
+    | .dec m e => by rw [render]; exact renderDec_all32 m e
+    | .str s => by rw [render]; exact renderStr_all32 s
+    | .arr [] => by rw [render]; decide
+    | .arr (x :: xs) => by
+      rw [render]; exact .cons (by decide) (.append (render_all32 x) (renderElems_all32 xs))
+    | .obj [] => by rw [render]; decide
+    | .obj ((k, v) :: kvs) => by
+      rw [render]
+      exact .cons (by decide) (.append (renderStr_all32 k)
+        (.cons (by decide) (.append (render_all32 v) (renderMembers_all32 kvs))))
+  theorem renderElems_all32 : ∀ xs : List JVal, All32 (renderElems xs)
+    | [] => by rw [renderElems]; decide
+    | x :: xs => by
+      rw [renderElems]; exact .cons (by decide) (.append (render_all32 x) (renderElems_all32 xs))
+  theorem renderMembers_all32 : ∀ kvs : List (Bytes × JVal), All32 (renderMembers kvs)
+    | [] => by rw [renderMembers]; decide
+    | (k, v) :: kvs => by
+      rw [renderMembers]
+      exact .cons (by decide) (.append (renderStr_all32 k)
+        (.cons (by decide) (.append (render_all32 v) (renderMembers_all32 kvs))))
+end
+
+/-- Every byte of a rendered value is `≥ 0x20` (holds for every value, well-formed or not). -/
+theorem render_ge32 (v : JVal) : ∀ c ∈ render v, 32 ≤ c := render_all32 v
+
+/-- Item 4: no raw newline, tab or carriage return in rendered JSON. -/
+theorem render_no_nl_tab (v : JVal) : ∀ c ∈ render v, c ≠ 10 ∧ c ≠ 9 ∧ c ≠ 13 := by
+  intro c hc
+  have h := render_all32 v c hc
+  refine ⟨?_, ?_, ?_⟩ <;> (intro e; subst e; exact absurd h (by decide))
 
 
 end Cacache.Json
